@@ -328,20 +328,43 @@ func (w *vc12World) clone() (c *vc12World) {
 type vc12Srv struct {
 	mu      sync.Mutex
 	content map[string]string
+	status  map[string]int
 	hits    map[string]int
 	srv     *httptest.Server
+
+	// mirrors maps a path to a file that carries the same content, for
+	// consumers that are configured with a file URL.
+	mirrors map[string]string
+}
+
+// mirror makes every later set of path write file as well; an empty file
+// name stops that.
+func (s *vc12Srv) mirror(path, file string) {
+	s.mu.Lock()
+	defer s.mu.Unlock()
+
+	if file == "" {
+		delete(s.mirrors, path)
+	} else {
+		s.mirrors[path] = file
+	}
 }
 
 func vc12NewSrv(tb testing.TB) (s *vc12Srv) {
-	s = &vc12Srv{content: map[string]string{}, hits: map[string]int{}}
+	s = &vc12Srv{content: map[string]string{}, status: map[string]int{}, hits: map[string]int{}, mirrors: map[string]string{}}
 	s.srv = httptest.NewServer(http.HandlerFunc(func(w http.ResponseWriter, r *http.Request) {
 		s.mu.Lock()
 		text, ok := s.content[r.URL.Path]
+		code := s.status[r.URL.Path]
 		s.hits[r.URL.Path]++
 		s.mu.Unlock()
 
 		if !ok {
 			http.NotFound(w, r)
+
+			return
+		} else if code != 0 {
+			http.Error(w, "c12 fault", code)
 
 			return
 		}
@@ -368,6 +391,21 @@ func (s *vc12Srv) set(path, text string) {
 	defer s.mu.Unlock()
 
 	s.content[path] = text
+	delete(s.status, path)
+	if f := s.mirrors[path]; f != "" {
+		if err := os.WriteFile(f, []byte(text), 0o644); err != nil {
+			panic(err)
+		}
+	}
+}
+
+// fail makes the server answer path with an HTTP error until its content is
+// set again.
+func (s *vc12Srv) fail(path string, code int) {
+	s.mu.Lock()
+	defer s.mu.Unlock()
+
+	s.status[path] = code
 }
 
 func (s *vc12Srv) takeHits() (h map[string]int) {
@@ -476,6 +514,12 @@ type vc12SideConf struct {
 	// HPRepl is the replacement host of every hash-prefix filter.
 	HPRepl [3]string `json:"hp_repl"`
 
+	// HPFile says which hash-prefix filters read their list from a file URL
+	// (the other way a refreshable gets its data: no download, no staleness);
+	// HPFilePath are the files.
+	HPFile     [3]bool   `json:"hp_file"`
+	HPFilePath [3]string `json:"-"`
+
 	// CacheCount is the size of every LRU of the cache-enabled side; the small
 	// ones make evictions happen inside a history.
 	CacheCount int `json:"cache_count"`
@@ -516,12 +560,17 @@ func vc12NewSide(srv *vc12Srv, dir string, conf *vc12SideConf, cached bool) (sd 
 			return nil, err
 		}
 
+		u := srv.url(fmt.Sprintf("/hp/%d", k))
+		if conf.HPFile[k] {
+			u = &url.URL{Scheme: "file", Path: conf.HPFilePath[k]}
+		}
+
 		sd.hp[k], err = hashprefix.NewFilter(&hashprefix.FilterConfig{
 			Logger:          slogutil.NewDiscardLogger(),
 			Cloner:          sd.cloner,
 			CacheManager:    sd.mgr,
 			Hashes:          hashes,
-			URL:             srv.url(fmt.Sprintf("/hp/%d", k)),
+			URL:             u,
 			ErrColl:         sd.errs.collector(),
 			Metrics:         filter.EmptyMetrics{},
 			ID:              id,
@@ -670,8 +719,32 @@ type vc12Req struct {
 	CustomUpd int64 `json:"custom_upd_ns"`
 	ZeroBase  bool  `json:"zero_base"`
 
+	// ProfID is the profile ID; it keys the custom-filter cache.
+	ProfID string `json:"prof_id"`
+
 	// msgs are the requester's message constructors, one per side.
 	msgs [2]*dnsmsg.Constructor
+
+	// conv, if not nil, is the filtering configuration that the real backend
+	// conversion produced for this requester; convMode and convTTL are the
+	// blocking mode and filtered-response TTL from the same conversion.  The
+	// exported fields then are the settings the backend was given, which the
+	// model judges by.
+	conv     filter.Config
+	convMode dnsmsg.BlockingMode
+	convTTL  time.Duration
+}
+
+// snapshot returns a deep copy of r without its constructors.
+func (r *vc12Req) snapshot() (c *vc12Req) {
+	c = &vc12Req{}
+	*c = *r
+	c.Lists = slices.Clone(r.Lists)
+	c.Svcs = slices.Clone(r.Svcs)
+	c.CustomRules = slices.Clone(r.CustomRules)
+	c.msgs = [2]*dnsmsg.Constructor{}
+
+	return c
 }
 
 var vc12ModeNames = []string{"nullip", "nxdomain", "refused", "customip4", "customip46"}
@@ -695,12 +768,17 @@ func vc12Mode(i int) dnsmsg.BlockingMode {
 }
 
 func (r *vc12Req) init(cloners [2]*dnsmsg.Cloner) (err error) {
+	mode, ttl := vc12Mode(r.Mode), time.Duration(r.TTL)*time.Second
+	if r.conv != nil {
+		mode, ttl = r.convMode, r.convTTL
+	}
+
 	for i, cl := range cloners {
 		r.msgs[i], err = dnsmsg.NewConstructor(&dnsmsg.ConstructorConfig{
 			Cloner:              cl,
-			BlockingMode:        vc12Mode(r.Mode),
+			BlockingMode:        mode,
 			StructuredErrors:    &dnsmsg.StructuredDNSErrorsConfig{Enabled: false},
-			FilteredResponseTTL: time.Duration(r.TTL) * time.Second,
+			FilteredResponseTTL: ttl,
 			EDEEnabled:          r.EDE,
 		})
 		if err != nil {
@@ -735,6 +813,7 @@ func vc12DrawSubset(t *rapid.T, all []string, label string) (sub []string) {
 func vc12DrawReq(t *rapid.T, i int, group bool, cloners [2]*dnsmsg.Cloner) (r *vc12Req) {
 	r = &vc12Req{
 		Name:    fmt.Sprintf("p%d", i),
+		ProfID:  fmt.Sprintf("c12prof%d", i),
 		Group:   group,
 		TTL:     rapid.SampledFrom([]int{10, 99, 3600, 0}).Draw(t, "ttl"),
 		Mode:    rapid.IntRange(0, len(vc12ModeNames)-1).Draw(t, "mode"),
@@ -781,6 +860,10 @@ func vc12DrawReq(t *rapid.T, i int, group bool, cloners [2]*dnsmsg.Cloner) (r *v
 var vc12CustomBase = time.Unix(1_700_000_000, 0).UTC()
 
 func (r *vc12Req) config() filter.Config {
+	if r.conv != nil {
+		return r.conv
+	}
+
 	par := &filter.ConfigParental{
 		Enabled:                  r.ParEnabled,
 		AdultBlockingEnabled:     r.Adult,
@@ -807,7 +890,7 @@ func (r *vc12Req) config() filter.Config {
 	}
 
 	custom := &filter.ConfigCustom{
-		ID:         r.Name,
+		ID:         r.ProfID,
 		UpdateTime: r.customTime(),
 		Enabled:    r.CustomEnabled && len(r.CustomRules) > 0,
 	}
